@@ -331,8 +331,9 @@ def correspond(ctx):
         x32 = struct.unpack("<f", struct.pack("<f", max(min(x, 3.4e38), -3.4e38)))[0]
         add("emitf", "emitf float32 %016x" % f64_bits(x32), "?", ("emitf", 32, x32))
     for line in corpus:
-        if line.split()[0] in ("read", "type", "emit", "emitf"):
-            add("corpus", line, "?", ("corpus",))
+        w = line.split()
+        if w[0] == "emit" and w[1] in tids:
+            add("corpus", line, "emit %d %s %s" % (tids[w[1]], w[2], w[3]), ("emit", w[1], int(w[2]), int(w[3])))
 
     rc1, iout, ierr = vlib.run_lua(opslua, input="\n".join(impl_lines) + "\n", interp=interp, timeout=3000)
     rc2, mout, merr = vlib.sh([model], input="\n".join(model_lines) + "\n", timeout=3000)
@@ -480,6 +481,11 @@ def correspond(ctx):
             addrt("rt-int", "tostring_%s %d" % (nm, v), ("tostring", str(w)))
             if nm in ("i8", "u8", "i32"):
                 addrt("rt-int", "print_%s %d" % (nm, v), ("print", str(w)))
+    addrt("rt-float", WITNESS_STR2NUM, ("bits", f64_bits(1e126)))
+    for line in corpus:
+        w = line.split()
+        if w[0] == "tostring_i64":
+            addrt("corpus", line, ("tostring", str(int(w[1]))))
     for s in [" 12", "12 ", "+7", "-0", "0x10", "0b101", "0X1f", "  -9223372036854775808  ", "9223372036854775807"]:
         addrt("rt-int", "tointeger %s" % X(s), ("tointeger", int(s.strip(), 0)))
     fl = [x * s for x in FLOAT_SPECIALS for s in (1, -1)] + [rand_float(rng) for _ in range(ctx.scale(1200, 30000))]
@@ -537,6 +543,10 @@ def correspond(ctx):
             if re.match(r"^-?\d+$", t): t += ".0"
             want = X(t)
         if got != want:
+            if k == "bits" and line.startswith("tonumber ") and line != WITNESS_STR2NUM and re.match(r"^f[0-9a-f]{16}$", got) \
+                    and abs(int(got[1:], 16) - m[1]) == 1 and str2num_witness_fails(rt_lines, ol):
+                dist["attributed:" + WITNESS_STR2NUM] = dist.get("attributed:" + WITNESS_STR2NUM, 0) + 1
+                continue
             viol(line, "run time: %s gives %s, expected %s" % (line, got, want), {"case": line, "implementation": got, "oracle": want})
         else:
             nontrivial.add(line)
@@ -568,6 +578,14 @@ def correspond(ctx):
 EMIT_WITNESS = "emit int64 18446744073709551621 16"
 WITNESS_HEXFLOAT = "0x1.4b7726200377363c577p-8"
 WITNESS_HEXEXP = "0x1p-1030"
+WITNESS_STR2NUM = "tonumber x31652b313236"          # tonumber("1e+126")
+
+
+def str2num_witness_fails(rt_lines, ol):
+    for l, g in zip(rt_lines, ol):
+        if l == WITNESS_STR2NUM:
+            return g != "f%016x" % f64_bits(1e126)
+    return False
 
 
 def hexexp_witness_fails(il, impl_lines):
